@@ -11,7 +11,7 @@ git -C /repo worktree add -q --detach "$wt" HEAD || exit 2
 cd "$wt"
 res() { echo "$1"; }
 applies=no; builds=no; suite=no; demo_with=unknown; demo_without=unknown
-if git apply "$d/patch.diff" 2>/dev/null; then applies=yes; fi
+if git apply "$d/patch.diff" 2>/dev/null || patch -p1 -s < "$d/patch.diff" >/dev/null 2>&1; then applies=yes; fi
 if [ $applies = yes ]; then
   if go build ./... >/dev/null 2>&1; then builds=yes; fi
   if go test -count=1 ./... >"$wt/.suite.log" 2>&1; then suite=pass; else suite=FAIL; fi
@@ -20,7 +20,7 @@ if [ $applies = yes ]; then
   for f in $demos; do mkdir -p "$(dirname "$f")"; cp "$d/demo/$f" "$f"; pkgs="$pkgs ./$(dirname "$f")"; done
   pkgs=$(echo $pkgs | tr ' ' '\n' | sort -u | tr '\n' ' ')
   if go test -count=1 -run 'Seed|seed|Demo|ZZ|Zz' $pkgs >"$wt/.demo_with.log" 2>&1; then demo_with=pass; else demo_with=FAIL; fi
-  git apply -R "$d/patch.diff"
+  git apply -R "$d/patch.diff" 2>/dev/null || patch -R -p1 -s < "$d/patch.diff" >/dev/null 2>&1
   if go test -count=1 -run 'Seed|seed|Demo|ZZ|Zz' $pkgs >"$wt/.demo_without.log" 2>&1; then demo_without=pass; else demo_without=FAIL; fi
 fi
 needs=$(grep -i -m1 -A3 'needs\|manifest' "$d/notes.md" 2>/dev/null | tr '\n' ' ' | cut -c1-600 | sed 's/"/\\"/g')
